@@ -330,6 +330,41 @@ pub fn apply<const N: usize>(
             });
             m(|| drop(it));
         }
+        DrainDebug(rs, s) => {
+            let b = sut.b.as_mut().unwrap();
+            let mut d = m(|| b.drain(rs.bounds()));
+            run_script(&mut d, s, tr, |e: E| {
+                let t = tag_of(e.0);
+                hold.elems.push(e);
+                t
+            });
+            tr.push(Obs::Str(format!("{:?}", d)));
+            m(|| drop(d));
+        }
+        IterDebug(kind, s) => match kind {
+            0 => {
+                let mut it = m(|| sut.bref().iter());
+                run_script(&mut it, s, tr, |e: &E| tag_of(e.0));
+                tr.push(Obs::Str(format!("{:?}", it)));
+            }
+            1 => {
+                let b = sut.b.as_mut().unwrap();
+                let mut it = m(|| b.iter_mut());
+                run_script(&mut it, s, tr, |e: &mut E| tag_of(e.0));
+                tr.push(Obs::Str(format!("{:?}", it)));
+            }
+            _ => {
+                let b: Cb<N> = *sut.b.take().unwrap();
+                let mut it = m(|| b.into_iter());
+                run_script(&mut it, s, tr, |e: E| {
+                    let t = tag_of(e.0);
+                    hold.elems.push(e);
+                    t
+                });
+                tr.push(Obs::Str(format!("{:?}", it)));
+                m(|| drop(it));
+            }
+        },
         DropBuf => {
             let b = sut.b.take().unwrap();
             m(|| drop(b));
